@@ -564,6 +564,51 @@ theorem minimiseTable_target_total (T : List Entry) (t : Nat) (methods : List Me
     · exact Or.inr ⟨b, rfl⟩
     · exact absurd h (minimiseTable_total T (some t) methods).1
 
+/-- **minimiseTables_routes.** Many chips: when `minimise_tables` returns, every chip whose table
+is orthogonal or generality-sorted (entries listing at least one source) got a table that routes
+every matched key identically, is not longer and meets that chip's target; a chip is absent from
+the result only if its minimised table is empty (every matched key is then default-routed). -/
+theorem minimiseTables_routes (chips : List (Nat × List Entry × Option Nat)) (methods : List Method)
+    (out : List (Nat × List Entry)) (h : minimiseTables chips methods = .ok out)
+    (x : Nat × List Entry × Option Nat) (hx : x ∈ chips) (hg : Good x.2.1)
+    (hsrc : ∀ e ∈ x.2.1, e.sources ≠ 0) :
+    ∃ T', (T' = [] ∨ (x.1, T') ∈ out) ∧ RouteEquiv x.2.1 T' ∧ T'.length ≤ x.2.1.length ∧
+      (∀ t, x.2.2 = some t → T'.length ≤ t) := by
+  obtain ⟨T', h1, h2⟩ := (minimiseTables_equiv chips methods out h).1 x hx
+  obtain ⟨h3, h4, h5⟩ := minimiseTable_equiv x.2.1 x.2.2 methods T' hg hsrc h1
+  exact ⟨T', h2, h3, h4, h5⟩
+
+/-- **minimiseTables_failure.** The only error of `minimise_tables` is the
+`MinimisationFailedError` of the first chip (in dictionary order) whose table cannot be brought
+to its target, carrying that chip, its target and the best size reached. -/
+theorem minimiseTables_failure (chips : List (Nat × List Entry × Option Nat)) (methods : List Method)
+    (chip : Nat) (e : Err) (h : minimiseTables chips methods = .error (chip, e)) :
+    ∃ x ∈ chips, x.1 = chip ∧ minimiseTable x.2.1 x.2.2 methods = .error e ∧
+      ∃ t best, x.2.2 = some t ∧ e = .minFailed t best := by
+  induction chips with
+  | nil => simp [minimiseTables] at h
+  | cons y rest ih =>
+    obtain ⟨c, T, target⟩ := y
+    simp only [minimiseTables] at h
+    split at h
+    · rename_i e' he
+      cases h
+      refine ⟨(chip, T, target), by simp, rfl, he, ?_⟩
+      cases target with
+      | none =>
+        obtain ⟨T', hT'⟩ := (minimiseTable_total T none methods).2 rfl
+        rw [hT'] at he; cases he
+      | some t =>
+        rcases minimiseTable_target_total T t methods with ⟨T', hT'⟩ | ⟨best, hb⟩
+        · rw [hT'] at he; cases he
+        · rw [hb] at he; cases he; exact ⟨t, best, rfl, rfl⟩
+    · split at h
+      · rename_i e' he
+        cases h
+        obtain ⟨x, hx, h1, h2⟩ := ih he
+        exact ⟨x, List.mem_cons_of_mem _ hx, h1, h2⟩
+      · cases h
+
 /-! ## The oracle of the check is the specification -/
 
 /-- **oracle_decides.** `routeEquivBrute` - the function the check runs on every table returned
